@@ -96,9 +96,11 @@ type env struct {
 	cnt       map[string]float64
 	examples  []interface{}
 	shard     int
+	phase     string // counter prefix: "P." product, "B." BFS
+	seedID    uint64 // id of the seed snapshot built during set-up
 }
 
-func (e *env) count(k string) { e.cnt[k]++ }
+func (e *env) count(k string) { e.cnt[e.phase+k]++ }
 
 func atomically(ctx sdk.Context, f func(c sdk.Context) error) (err error) {
 	defer func() {
@@ -141,19 +143,35 @@ func newEnv(r *report.Run, shard int) *env {
 	// seed snapshot: every validator registered on c1 (with a marker trait so
 	// that every later snapshot differs from it); the metrix listener creates
 	// the performance records without which no message can be assigned.
-	for _, v := range w.Vals {
-		must(w.RegisterAccounts(root, v, []string{"seed"}, c1))
+	// The oracles already apply here: the block-1 snapshot is recorded as first
+	// seen, the seed snapshot is judged like any other.
+	g := &ghost{Snaps: map[string]*snapG{}, Acct: map[string]bool{}, Chain: map[string]int{c1: chainActive}}
+	f := e.observe(root, g, nil, true)
+	if f == nil && g.MaxID != 1 {
+		f = explore.Failf("harness:setup", "expected exactly the block-1 snapshot, highest id %d", g.MaxID)
 	}
-	must(e.valsetEnd.EndBlock(root))
+	if f == nil {
+		for i, v := range w.Vals {
+			must(w.RegisterAccounts(root, v, []string{"seed"}, c1))
+			g.Acct[acctKey(i, c1)] = true
+		}
+		var want []member
+		if want, f = e.build(root, g); f == nil {
+			f = e.observe(root, g, want, false)
+		}
+	}
+	if f == nil && g.MaxID <= 1 {
+		f = explore.Failf("harness:setup", "the seed build stored no snapshot")
+	}
+	if f != nil {
+		r.Violate(f.Signature, "during set-up (block-1 snapshot, then all validators registered on c1 and a build): "+f.Message, map[string]interface{}{"scenario": "setup"})
+		return nil
+	}
+	e.seedID = g.MaxID
 	vm, err := w.App.MetrixKeeper.Validators(root, nil)
 	must(err)
 	if len(vm.GetValMetrics()) != nV {
 		panic(fmt.Sprintf("set-up: %d metrix records", len(vm.GetValMetrics())))
-	}
-	cur, err := w.App.ValsetKeeper.GetCurrentSnapshot(root)
-	must(err)
-	if cur.GetId() != 2 || len(cur.Validators) != nV {
-		panic(fmt.Sprintf("set-up: seed snapshot id %d with %d validators", cur.GetId(), len(cur.GetValidators())))
 	}
 	return e
 }
@@ -297,6 +315,13 @@ func (e *env) checkValset(ctx sdk.Context, c string, vs *evmtypes.Valset) (*expl
 		return explore.Failf("projection:unknown-snapshot", "UpdateValset on %s names snapshot %d which is not stored: %v", c, vs.ValsetID, err), st
 	}
 	ref := refProjection(s, c)
+	if !s.TotalShares.IsPositive() {
+		// no stake at all: the fraction is undefined; only hand-built validators
+		// that never entered the staking module's power index can be bonded with
+		// zero tokens after the staking end-blocker.
+		e.count("n_queued_valsets_of_zero_total_skipped")
+		return nil, st
+	}
 	if len(vs.Validators) != len(vs.Powers) {
 		return explore.Failf("projection:malformed", "UpdateValset on %s: %d validators, %d powers", c, len(vs.Validators), len(vs.Powers)), st
 	}
@@ -374,7 +399,10 @@ func (e *env) checkValset(ctx sdk.Context, c string, vs *evmtypes.Valset) (*expl
 		if st.Sum > 1<<32 {
 			e.count("n_power_mismatch_messages_sum_above_2^32")
 		}
-		return explore.Failf("projection:power", "published power differs from floor(2^32*share/total)\n%s", st.Detail), st
+		if st.Sum > 1<<32 {
+			return explore.Failf("projection:sum-exceeds-2^32", "published powers sum to %d > 2^32 = 4294967296 (largest deviation from floor(2^32*share/total): %d)\n%s", st.Sum, st.MaxDiff, st.Detail), st
+		}
+		return explore.Failf("projection:power", "published power differs from floor(2^32*share/total) (largest deviation %d, published sum %d)\n%s", st.MaxDiff, st.Sum, st.Detail), st
 	}
 	// order: the property text is silent; the design oracle asks for shares in
 	// non-increasing order, ties unconstrained.
@@ -753,10 +781,20 @@ func (e *env) ops(rich bool) func(n *explore.Node) []explore.Op {
 				return e.observe(*ctx, g, want, false)
 			}})
 		}
+		// a staking transaction, then the staking end-blocker of its block: in the
+		// application the staking end-blocker runs after the transactions and
+		// before the valset end-block, so a build never sees a delegation change
+		// whose status update is still pending. (Jail is different: the consensus
+		// end-blocker, which runs between the two, jails through the valset keeper.)
 		tx := func(ctx sdk.Context, a *world.Actor, m sdk.Msg) (bool, *explore.Fail) {
 			res := w.DeliverTx(ctx, []*world.Actor{a}, m)
 			if res.Stage == "ante" || res.Stage == "build" {
 				return false, explore.Failf("harness:tx", "tx of %s failed in %s: %v", a.Name, res.Stage, res.Err)
+			}
+			if res.OK() {
+				if err := e.stakingEnd(ctx); err != nil {
+					return false, explore.Failf("harness:staking-endblock", "%v", err)
+				}
 			}
 			return res.OK(), nil
 		}
@@ -961,7 +999,7 @@ func (e *env) ops(rich bool) func(n *explore.Node) []explore.Op {
 }
 
 // bfsInit builds the initial node for stake vector j: v0..v2 registered on c1,
-// v3 without account, stakes raised by self-delegation, snapshot built.
+// v3, v4 without account, stakes raised by self-delegation, snapshot built.
 func (e *env) bfsInit(root sdk.Context, j int) *explore.Node {
 	ctx := world.Fork(root)
 	g := &ghost{Vec: j, Snaps: map[string]*snapG{}, Acct: map[string]bool{}, Chain: map[string]int{c1: chainActive}}
@@ -976,8 +1014,10 @@ func (e *env) bfsInit(root sdk.Context, j int) *explore.Node {
 		st[i] = alpha[bfsVectors[j][i]]
 		must(e.setAccounts(ctx, i, c1))
 	}
-	must(e.setAccounts(ctx, 3))
-	delete(g.Acct, acctKey(3, c1))
+	for v := 3; v < nV; v++ {
+		must(e.setAccounts(ctx, v))
+		delete(g.Acct, acctKey(v, c1))
+	}
 	must(e.raiseTo(ctx, st))
 	want, f := e.build(ctx, g)
 	if f == nil {
@@ -988,8 +1028,8 @@ func (e *env) bfsInit(root sdk.Context, j int) *explore.Node {
 		e.r.Violate(f.Signature, f.Message, map[string]interface{}{"scenario": "bfs", "path": []string{label}})
 		return nil
 	}
-	if g.MaxID != 3 {
-		panic(fmt.Sprintf("init %s: highest snapshot id %d", label, g.MaxID))
+	if g.MaxID <= e.seedID {
+		panic(fmt.Sprintf("init %s: no snapshot stored (highest id %d)", label, g.MaxID))
 	}
 	return &explore.Node{Ctx: ctx, Ghost: g, Path: []string{label}}
 }
@@ -1059,27 +1099,28 @@ func (e *env) productCase(base sdk.Context, p pcase) *explore.Fail {
 	if f := e.observe(ctx, g, want, false); f != nil {
 		return f
 	}
-	if g.MaxID != 3 || len(want) != k {
-		return explore.Failf("harness:product-build", "expected snapshot 3 with %d validators, highest id %d, reference %d", k, g.MaxID, len(want))
+	if g.MaxID <= e.seedID || len(want) != k {
+		return explore.Failf("harness:product-build", "expected a new snapshot with %d validators, highest id %d, reference %d", k, g.MaxID, len(want))
 	}
+	newID := g.MaxID
 	q1 := e.updateValsets(ctx, c1)
-	if len(q1) != 1 || q1[0].VS.ValsetID != 3 || len(q1[0].VS.Validators) != k {
+	if len(q1) != 1 || q1[0].VS.ValsetID != newID || len(q1[0].VS.Validators) != k {
 		// the full set always sums to more than the threshold (at most k is lost to rounding)
-		return explore.Failf("harness:product-c1", "expected one UpdateValset for snapshot 3 on c1, found %d", len(q1))
+		return explore.Failf("harness:product-c1", "expected one UpdateValset for snapshot %d with %d validators on c1, found %d messages", newID, k, len(q1))
 	}
 	e.count("n_product_c1_valsets")
 	// 2. c2 becomes active with the seed snapshot live on it; the just-in-time
 	// path publishes snapshot 3 restricted to the validators with a c2 account.
 	must(e.activateChain(ctx, c2))
 	g.Chain[c2] = chainActive
-	must(w.App.ValsetKeeper.SetSnapshotOnChain(ctx, 2, c2))
+	must(w.App.ValsetKeeper.SetSnapshotOnChain(ctx, e.seedID, c2))
 	if f := e.jit(ctx, c2); f != nil {
 		return f
 	}
 	if f := e.observe(ctx, g, nil, false); f != nil {
 		return f
 	}
-	s3, err := w.App.ValsetKeeper.FindSnapshotByID(ctx, 3)
+	s3, err := w.App.ValsetKeeper.FindSnapshotByID(ctx, newID)
 	must(err)
 	refSum := new(big.Int)
 	for _, pr := range refProjection(s3, c2) {
@@ -1144,21 +1185,32 @@ func (e *env) productVector(rootP sdk.Context, st []int) {
 		r.Violate("harness:product-stakes", fmt.Sprintf("%v: %v", st, err), pcase{st, 0}.replay())
 		return
 	}
-	for mask := 0; mask < 1<<k; mask++ {
+	failed := map[string]bool{}
+	// full subset first: it is the one shown when the defect does not depend on the subset
+	for i := 0; i < 1<<k; i++ {
+		mask := 1<<k - 1 - i
 		p := pcase{st, mask}
 		f := e.productCase(base, p)
 		e.count("n_product_cases")
 		if f == nil {
 			r.Case(p.String())
-			if e.shard == 0 && int(e.cnt["n_product_cases"])%997 == 1 {
+			if e.shard == 0 && int(e.cnt["P.n_product_cases"])%997 == 1 {
 				r.Sample(map[string]interface{}{"scenario": "product", "case": p.String(), "result": "queued UpdateValset messages equal the reference"})
 			}
 			continue
 		}
 		r.Case("")
 		e.count("n_product_fail:" + f.Signature)
-		if f.Signature == "projection:power" && len(e.examples) < 6 && k <= 2 && mask == 1<<k-1 {
-			e.examples = append(e.examples, map[string]interface{}{"case": p.String(), "detail": f.Message})
+		if failed[f.Signature] {
+			continue // one report per stake vector and defect class
+		}
+		failed[f.Signature] = true
+		e.count(fmt.Sprintf("n_product_vectors_fail:%s:k=%d", f.Signature, k))
+		if os.Getenv("VERIF_C10_LIST") != "" {
+			fmt.Fprintf(os.Stderr, "FAIL %s %s\n%s\n", f.Signature, p.String(), f.Message)
+		}
+		if len(e.examples) < 8 && k <= 2 {
+			e.examples = append(e.examples, map[string]interface{}{"signature": f.Signature, "case": p.String(), "detail": f.Message})
 		}
 		r.Violate(f.Signature, p.String()+"\n"+f.Message, p.replay())
 	}
@@ -1186,6 +1238,9 @@ func run(r *report.Run, shard, nshards int, replayFile string) {
 		defer pprof.StopCPUProfile()
 	}
 	e := newEnv(r, shard)
+	if e == nil {
+		return // violation during set-up, already recorded
+	}
 	w := e.w
 	rootB := world.Fork(w.Root)
 	rootP := world.Fork(w.Root)
@@ -1215,6 +1270,8 @@ func run(r *report.Run, shard, nshards int, replayFile string) {
 		"skipped snapshot ids are not a violation (ids must strictly increase); snapshots that are not 'worthy' are not stored and not judged",
 		"staking module (status, jailed, tokens), bank and the consensus queue store are trusted; tx atomicity as in baseapp.runTx",
 		"a panic of the valset end-block / just-in-time update while building or publishing is reported under its own signature publish-panic:* (no set is sent at all; in the end-block it would halt the chain)",
+		"a snapshot whose total is zero is outside the property (stake fractions undefined); messages for it are skipped and counted",
+		"operations: Delegate/Undelegate/Unbond/Unjail are transactions followed by the staking end-blocker of their block (application order: txs, staking end-block, ..., consensus end-block, ..., valset end-block); Jail is not (the consensus end-blocker jails after the staking end-blocker), StakingEnd is a separate operation",
 		"state hash drops bank/auth (funds 2^70 per account never run out within the bounds) and the valset keep-alive book-keeping (grace-period, unjailed-snapshot: only read by JailInactiveValidators, not run at height 50)",
 	}
 	deadline := r.Deadline(150*time.Second, 24*time.Minute)
@@ -1224,19 +1281,38 @@ func run(r *report.Run, shard, nshards int, replayFile string) {
 		return
 	}
 
-	// (P)
-	pdl := deadline
+	// (P) at most half of the time budget, so that (B) always runs
+	start := time.Now()
+	pdl := start.Add(deadline.Sub(start) / 2)
 	if os.Getenv("VERIF_C10_SKIP_PRODUCT") == "" {
+		e.phase = "P."
 		e.product(rootP, pdl, shard, nshards, maxK)
 	}
 
 	// (B)
 	if os.Getenv("VERIF_C10_SKIP_BFS") == "" {
-		spec := e.spec(rootB, nvec, depth, rich, deadline, shard, nshards)
-		res := explore.Run(r, spec)
+		if r.Thorough() {
+			// the rich alphabet (every role for every validator) to a smaller depth first
+			e.phase = "R."
+			rd := 4
+			if depth < rd {
+				rd = depth
+			}
+			spec := e.spec(rootB, nvec, rd, true, deadline, shard, nshards)
+			spec.Name = "bfs-rich"
+			res := search(r, spec)
+			if shard == 0 {
+				r.Extra["bfs_rich_depth_completed"] = float64(res.DepthCompleted)
+			}
+			r.Extra["R.reexecuted_for_lazy_nodes"] = float64(res.Reexec)
+		}
+		e.phase = "B."
+		spec := e.spec(rootB, nvec, depth, rich && !r.Thorough(), deadline, shard, nshards)
+		res := search(r, spec)
 		if shard == 0 {
 			r.Extra["bfs_depth_completed"] = float64(res.DepthCompleted)
 		}
+		r.Extra["B.reexecuted_for_lazy_nodes"] = float64(res.Reexec)
 	}
 	for k, v := range e.cnt {
 		r.Extra[k] = v
